@@ -114,7 +114,22 @@ func (g *Gen) shapeOfSel(op *Op, sets [][]*Node, parents []string, typeName stri
 				}
 			}
 			tag += ":" + ctx
-			parts = append(parts, common.L("k", common.QS(c.key), common.I(first.UID), ty, tag))
+			// where the service's datum for this key lives (for the S3 projection clause): the protobuf field
+			// name the configured GRPCMapping gives the GraphQL field, and for a root field the RPC whose
+			// response carries it -- from schema and mapping only, never from the compiled plan
+			proto, rpc := first.Name, ""
+			if g.M != nil {
+				if tn, ok := g.M.FindFieldMapping(concrete, first.Name); ok {
+					proto = tn
+				}
+				switch typeName {
+				case "Query":
+					rpc = g.M.QueryRPCs[first.Name].RPC
+				case "Mutation":
+					rpc = g.M.MutationRPCs[first.Name].RPC
+				}
+			}
+			parts = append(parts, common.L("k", common.QS(c.key), common.I(first.UID), ty, tag, common.QS(proto), common.QS(rpc)))
 		}
 		if implicitTypename {
 			has := false
